@@ -5,3 +5,5 @@ import DateutilVerif.Properties.C10
 #print axioms C10.history_inv
 #print axioms C10.history_inv_any
 #print axioms C10.history_inv_dropped
+#print axioms C10.gen_invalidate_eq_model
+#print axioms C10.gen_invalidate_uncached
